@@ -12,6 +12,7 @@ import (
 	"errors"
 	"flag"
 	"fmt"
+	"math"
 	"os"
 	"testing"
 	"time"
@@ -55,11 +56,32 @@ var (
 	aFunc               = func(e *zerolog.Event) { e.Int("f", 1) }
 )
 
+// argument value classes, selected per chain by `variant`: the fast paths are allocation-free for every value, not
+// only for the plain ones (strings that need escaping, floats in exponent form and non-finite, extreme integers,
+// sub-second and pre-epoch times, durations below the unit)
+var variant int
+
+var (
+	vStr  = []string{"value", "needs \"escape\"\n\t", "caf\u00e9 \xff \u2028"}
+	vStrs = [][]string{{"a", "b"}, {"q\"", "\n", ""}, {"\xff\xfe", "\u00e9"}}
+	vByt  = [][]byte{[]byte("bytes"), []byte("q\"\\\n"), {0xff, 0x00, 0x7f}}
+	vF32  = []float32{1.5, 1e-7, float32(math.Inf(1))}
+	vF64  = []float64{1e21, 1e-7, math.NaN()}
+	vFs32 = [][]float32{{1.5, 2}, {1e-7, 3e38}, {float32(math.NaN()), 0}}
+	vFs64 = [][]float64{{1.5, 1e21}, {1e-7, 5e-324}, {math.Inf(-1), 0}}
+	vI64  = []int64{-5, math.MinInt64, math.MaxInt64}
+	vU64  = []uint64{1 << 63, math.MaxUint64, 0}
+	vTime = []time.Time{time.Date(2020, 1, 2, 3, 4, 5, 6, time.UTC), time.Date(1960, 1, 2, 3, 4, 5, 999999999, time.UTC), time.Unix(0, 0).UTC()}
+	vDur  = []time.Duration{time.Second, 250 * time.Nanosecond, -90 * time.Minute}
+	vDurs = [][]time.Duration{{time.Second, time.Millisecond}, {1, -1}, {math.MaxInt64, 0}}
+	vTms  = [][]time.Time{{vTime[0], vTime[1]}, {vTime[1], vTime[2]}, {vTime[2], vTime[0]}}
+)
+
 var methods = map[string]func(e *zerolog.Event) *zerolog.Event{
-	"Str":       func(e *zerolog.Event) *zerolog.Event { return e.Str("s", "value") },
-	"Strs":      func(e *zerolog.Event) *zerolog.Event { return e.Strs("ss", aStrs) },
-	"Bytes":     func(e *zerolog.Event) *zerolog.Event { return e.Bytes("b", aBytes) },
-	"Hex":       func(e *zerolog.Event) *zerolog.Event { return e.Hex("h", aBytes) },
+	"Str":       func(e *zerolog.Event) *zerolog.Event { return e.Str("s", vStr[variant]) },
+	"Strs":      func(e *zerolog.Event) *zerolog.Event { return e.Strs("ss", vStrs[variant]) },
+	"Bytes":     func(e *zerolog.Event) *zerolog.Event { return e.Bytes("b", vByt[variant]) },
+	"Hex":       func(e *zerolog.Event) *zerolog.Event { return e.Hex("h", vByt[variant]) },
 	"Bool":      func(e *zerolog.Event) *zerolog.Event { return e.Bool("bo", true) },
 	"Bools":     func(e *zerolog.Event) *zerolog.Event { return e.Bools("bs", aBools) },
 	"Int":       func(e *zerolog.Event) *zerolog.Event { return e.Int("i", -5) },
@@ -70,7 +92,7 @@ var methods = map[string]func(e *zerolog.Event) *zerolog.Event{
 	"Ints16":    func(e *zerolog.Event) *zerolog.Event { return e.Ints16("is16", aInts16) },
 	"Int32":     func(e *zerolog.Event) *zerolog.Event { return e.Int32("i32", -5) },
 	"Ints32":    func(e *zerolog.Event) *zerolog.Event { return e.Ints32("is32", aInts32) },
-	"Int64":     func(e *zerolog.Event) *zerolog.Event { return e.Int64("i64", -5) },
+	"Int64":     func(e *zerolog.Event) *zerolog.Event { return e.Int64("i64", vI64[variant]) },
 	"Ints64":    func(e *zerolog.Event) *zerolog.Event { return e.Ints64("is64", aInts64) },
 	"Uint":      func(e *zerolog.Event) *zerolog.Event { return e.Uint("u", 5) },
 	"Uints":     func(e *zerolog.Event) *zerolog.Event { return e.Uints("us", aUints) },
@@ -80,17 +102,17 @@ var methods = map[string]func(e *zerolog.Event) *zerolog.Event{
 	"Uints16":   func(e *zerolog.Event) *zerolog.Event { return e.Uints16("us16", aU16) },
 	"Uint32":    func(e *zerolog.Event) *zerolog.Event { return e.Uint32("u32", 5) },
 	"Uints32":   func(e *zerolog.Event) *zerolog.Event { return e.Uints32("us32", aU32) },
-	"Uint64":    func(e *zerolog.Event) *zerolog.Event { return e.Uint64("u64", 1<<63) },
+	"Uint64":    func(e *zerolog.Event) *zerolog.Event { return e.Uint64("u64", vU64[variant]) },
 	"Uints64":   func(e *zerolog.Event) *zerolog.Event { return e.Uints64("us64", aU64) },
-	"Float32":   func(e *zerolog.Event) *zerolog.Event { return e.Float32("f32", 1.5) },
-	"Floats32":  func(e *zerolog.Event) *zerolog.Event { return e.Floats32("fs32", aF32) },
-	"Float64":   func(e *zerolog.Event) *zerolog.Event { return e.Float64("f64", 1e21) },
-	"Floats64":  func(e *zerolog.Event) *zerolog.Event { return e.Floats64("fs64", aF64) },
-	"Time":      func(e *zerolog.Event) *zerolog.Event { return e.Time("t", aTime) },
-	"Times":     func(e *zerolog.Event) *zerolog.Event { return e.Times("ts", aTimes) },
-	"Dur":       func(e *zerolog.Event) *zerolog.Event { return e.Dur("d", time.Second) },
-	"Durs":      func(e *zerolog.Event) *zerolog.Event { return e.Durs("ds", aDurs) },
-	"TimeDiff":  func(e *zerolog.Event) *zerolog.Event { return e.TimeDiff("td", aTime, aTime2) },
+	"Float32":   func(e *zerolog.Event) *zerolog.Event { return e.Float32("f32", vF32[variant]) },
+	"Floats32":  func(e *zerolog.Event) *zerolog.Event { return e.Floats32("fs32", vFs32[variant]) },
+	"Float64":   func(e *zerolog.Event) *zerolog.Event { return e.Float64("f64", vF64[variant]) },
+	"Floats64":  func(e *zerolog.Event) *zerolog.Event { return e.Floats64("fs64", vFs64[variant]) },
+	"Time":      func(e *zerolog.Event) *zerolog.Event { return e.Time("t", vTime[variant]) },
+	"Times":     func(e *zerolog.Event) *zerolog.Event { return e.Times("ts", vTms[variant]) },
+	"Dur":       func(e *zerolog.Event) *zerolog.Event { return e.Dur("d", vDur[variant]) },
+	"Durs":      func(e *zerolog.Event) *zerolog.Event { return e.Durs("ds", vDurs[variant]) },
+	"TimeDiff":  func(e *zerolog.Event) *zerolog.Event { return e.TimeDiff("td", vTime[variant], vTime[(variant+1)%3]) },
 	"Timestamp": func(e *zerolog.Event) *zerolog.Event { return e.Timestamp() },
 	"Err":       func(e *zerolog.Event) *zerolog.Event { return e.Err(aErr) },
 	"AnErr":     func(e *zerolog.Event) *zerolog.Event { return e.AnErr("ae", aErr) },
@@ -119,6 +141,8 @@ type Chain struct {
 	Ctx     string   `json:"ctx"`     // none | fields | ts
 	Enabled bool     `json:"enabled"` // false: level-filtered logger
 	Fin     string   `json:"fin"`     // Msg | Send
+	Var     int      `json:"var"`     // argument value class (see vStr ...): 0 plain, 1 and 2 the corners
+	Set     string   `json:"set"`     // global settings: "" default | unix | unixms | unixmicro | unixnano | durint | dursec | prec3
 }
 
 type countW struct{ n int }
@@ -137,6 +161,30 @@ func mkLogger(w *countW, c Chain) zerolog.Logger {
 		l = l.Level(zerolog.ErrorLevel)
 	}
 	return l
+}
+
+// applySet changes the global settings that select a different encoder path and returns the function that restores them.
+func applySet(name string) func() {
+	tf, du, di, fp := zerolog.TimeFieldFormat, zerolog.DurationFieldUnit, zerolog.DurationFieldInteger, zerolog.FloatingPointPrecision
+	switch name {
+	case "unix":
+		zerolog.TimeFieldFormat = zerolog.TimeFormatUnix
+	case "unixms":
+		zerolog.TimeFieldFormat = zerolog.TimeFormatUnixMs
+	case "unixmicro":
+		zerolog.TimeFieldFormat = zerolog.TimeFormatUnixMicro
+	case "unixnano":
+		zerolog.TimeFieldFormat = zerolog.TimeFormatUnixNano
+	case "durint":
+		zerolog.DurationFieldInteger = true
+	case "dursec":
+		zerolog.DurationFieldUnit = time.Second
+	case "prec3":
+		zerolog.FloatingPointPrecision = 3
+	}
+	return func() {
+		zerolog.TimeFieldFormat, zerolog.DurationFieldUnit, zerolog.DurationFieldInteger, zerolog.FloatingPointPrecision = tf, du, di, fp
+	}
 }
 
 func runChain(l *zerolog.Logger, ops []func(*zerolog.Event) *zerolog.Event, send bool) {
@@ -182,11 +230,15 @@ func main() {
 				os.Exit(2)
 			}
 		}
+		variant = c.Var % 3
+		restore := applySet(c.Set)
 		w := &countW{}
 		l := mkLogger(w, c)
 		send := c.Fin == "Send"
 		rec := map[string]interface{}{"a": "Chain", "chain": c.Chain, "ctx": c.Ctx, "enabled": c.Enabled, "fin": c.Fin, "build": buildName}
+		rec["var"], rec["set"] = c.Var, c.Set
 		measure(&l, ops, send, w, rec)
+		restore()
 		b, _ := json.Marshal(rec)
 		out.Write(b)
 		out.WriteByte('\n')
